@@ -187,3 +187,67 @@ def random_program(rnd, tier, depth=3, max_items=14, kinds=KINDS, names=("x", "y
             if rnd.random() < 0.3:
                 al.dom[k] = al.dom[k] + [EXC(rnd.choice(["KeyError", "ZeroDivisionError", "ValueError"]))]
     return program(items, al.dom, fam="rand")
+
+
+# ------------------------------------------------------------------ C05
+def c05_chains(tier, rnd):
+    """all nestings <= 3 of define-local / define-global / repeat elements over a
+    name pool that contains a plain name, a Python builtin and a generated-code
+    helper name, x each name initially bound or not; snapshots of the variable
+    environment before / inside / after every element"""
+    pool = ["x", "len", "get"] if tier == "quick" else ["x", "len", "get", "re", "translate"]
+    kinds = ["L", "G", "R"]
+    etypes = [(k, n) for k in kinds for n in pool]
+    chains = [(a,) for a in etypes] + [(a, b) for a in etypes for b in etypes]
+    c3 = [(a, b, c) for a in etypes for b in etypes for c in etypes]
+    if tier == "quick":
+        c3 = rnd.sample(c3, 250)
+    chains += c3
+    progs = []
+    for ch in chains:
+        used = sorted({n for _, n in ch})
+        inits = list(itertools.product([False, True], repeat=len(used)))
+        if tier == "quick" and len(ch) == 3:
+            inits = [rnd.choice(inits)]
+        for ini in inits:
+            al = Alloc(tier)
+            sn = [0]
+
+            def snp():
+                sn[0] += 1
+                return Text("s", snap(sn[0]))
+            items = [snp()]
+            for d, (k, n) in enumerate(ch):
+                if k == "L":
+                    items.append(Open(define=[(False, n, al.call("define", [S("a") if d % 2 == 0 else S("b")]))], sattr=[]))
+                elif k == "G":
+                    items.append(Open(define=[(True, n, al.call("define", [S("c")]))], sattr=[]))
+                else:
+                    items.append(Open(rep=(False, n, al.call("repeat", [SEQ([S("a"), S("b")]), SEQ([])])), sattr=[]))
+                items.append(snp())
+            for d in range(len(ch)):
+                items.append(CLOSE)
+                items.append(snp())
+            init = {n: S("u0") for n, b in zip(used, ini) if b}
+            progs.append(program(items, al.dom, init=init,
+                                 fam="C05.chain:" + "/".join(k + ":" + n for k, n in ch) + " init=" + ",".join(sorted(init))))
+    return progs, pool
+
+
+def c05_siblings(tier, rnd):
+    """a defining element followed by a sibling that reads the name in an
+    expression (text probe): shadowing a builtin or helper name is local"""
+    pool = ["x", "len", "str", "id"]
+    progs = []
+    for n in pool:
+        for k in ("L", "G", "R"):
+            al = Alloc(tier)
+            if k == "R":
+                el = Open(rep=(False, n, al.call("repeat", [SEQ([S("a")]), SEQ([])])), sattr=[])
+            else:
+                el = Open(define=[(k == "G", n, al.call("define", [S("a")]))], sattr=[])
+            items = [Text("0", pipe(var(n), const(S("u0")))), el, Text("1", pipe(var(n), const(S("u0")))), CLOSE,
+                     Text("2", pipe(var(n), const(S("u0")))),
+                     Open(cond=var(n) if n != "x" else pipe(var(n), const(B(True))), sattr=[]), Text("3"), CLOSE]
+            progs.append(program(items, al.dom, fam="C05.sib:%s:%s" % (k, n)))
+    return progs, pool
